@@ -437,6 +437,14 @@ func c13Pipes() []c13Pipe {
 		{"textonly: apostrophe in the first of two literals", `s | joinall("it's", "b")`, "it'shellob", ""},
 		{"textonly: apostrophe in the first of three literals", `s | joinall("it's", "a", "b")`, "it'shelloahellob", ""},
 		{"textonly: two apostrophes and a comma", `e | default("rock'n'roll, baby")`, "rock'n'roll, baby", ""},
+		// ... also when it is the FIRST or LAST character of the literal's text: the literal is what stands between its own pair of quotes
+		{"textonly: literal beginning with an apostrophe", `e | default("'s profile")`, "'s profile", ""},
+		{"textonly: literal that is one double quote", `e | default('"') | strict`, `<">`, ""},
+		{"textonly: literal that is one apostrophe", `s | joinall("'", "'")`, "'hello'", ""},
+		{"textonly: literal wrapped in the other quotes", `e | default("'n/a'")`, "'n/a'", ""},
+		{"textonly: literal ending with a double quote", `e | default('say "hi"') | upper`, `SAY "HI"`, ""},
+		{"textonly: literal ending with an apostrophe", `s | joinall("the boys'", "x")`, "the boys'hellox", ""},
+		{"textonly: direct call with an edge-quoted literal", `pair("'a'", n)`, "'a'+7", ""},
 		{"unknown function", "s | nosuch", "", "nosuch"}, {"unknown in chain", "s | upper | nosuch2 | lower", "", "nosuch2"}, {"too many args", "n | double(1)", "", "double"}, {"too few args", "n | add", "", "add"},
 		// a wrong argument count is an error also when the missing parameters are declared `any`
 		{"too few args, any-typed builtin", "s | default", "", "default"}, {"too few args, any-typed custom", "s | pair", "", "pair"}, {"too few args, any-typed direct call", "pair(s)", "", "pair"},
